@@ -58,6 +58,7 @@ EXTRA = {
     "SpectralMixtureKernel_2d": lambda: K.SpectralMixtureKernel(num_mixtures=3, ard_num_dims=2),
     "PolynomialKernel_p3": lambda: K.PolynomialKernel(power=3),
     "RFFKernel_big": lambda: K.RFFKernel(num_samples=6, num_dims=2),
+    "RFFKernel_lazy_dims": lambda: K.ScaleKernel(K.RFFKernel(num_samples=5)),  # weights drawn at the first evaluation
     "GridInterpolationKernel": lambda: K.GridInterpolationKernel(K.RBFKernel(), grid_size=8, num_dims=2, grid_bounds=[(-1.0, 2.0), (-1.0, 2.0)]),
     "GridInterpolationKernel_dynamic": lambda: K.GridInterpolationKernel(K.MaternKernel(nu=1.5), grid_size=8, num_dims=2),
     "AdditiveStructureKernel": lambda: K.AdditiveStructureKernel(K.RBFKernel(), num_dims=2),
